@@ -45,7 +45,7 @@ func (c *c01Capture) RoundTrip(r *http.Request) (*http.Response, error) {
 		delete(h, "Content-Type")
 	}
 	c.attempts = append(c.attempts, c01ShowURL(r.URL)+" m="+verifh.Hex(r.Method)+" host="+verifh.Hex(r.Host)+" hdr="+c01Hdr(h)+
-		fmt.Sprintf(" cl=%d hasbody=%s ", r.ContentLength, c01b(c.had))+c01Blob(c.body))
+		fmt.Sprintf(" cl=%d hasbody=%s getbody=%s ", r.ContentLength, c01b(c.had), c01b(r.GetBody != nil))+c01Blob(c.body))
 	status := 200
 	if c.fail > 0 {
 		c.fail--
@@ -284,7 +284,7 @@ func c01LanePipe(t *testing.T, s *c01Sess, profile string, n int) {
 		case "func":
 			b := tc.body
 			req.SetBody(func() (io.ReadCloser, error) { return io.NopCloser(bytes.NewReader(b)), nil })
-			modelKind = "reader"
+			modelKind = "func"
 		case "json":
 			var v map[string]interface{}
 			json.Unmarshal(tc.body, &v)
@@ -324,6 +324,11 @@ func c01LanePipe(t *testing.T, s *c01Sess, profile string, n int) {
 		}
 		if c01RawPathDropped(tc.u, req, err) {
 			class = "rawpath-dropped"
+		}
+		if tc.bodyKind == "reader" {
+			// known finding C01-2: a one-shot reader reaches the transport with a GetBody that
+			// hands out the same reader again (the model follows the repaired Client.roundTrip)
+			class = "oneshot-body-replayed"
 		}
 		// the model gets the marshalled bytes as an in-memory body, and the masked Content-Type
 		line := "c01pipe " + verifh.Hex(tc.method) + " " + verifh.Hex(tc.u.rawURL) + " " + c01PMap(tc.u.rPath) + " " + c01PMap(tc.u.cPath) + " " +
